@@ -14,6 +14,7 @@ import (
 	"strings"
 
 	"github.com/33cn/chain33/common/crypto"
+	_ "github.com/33cn/chain33/system/address"
 	_ "github.com/33cn/chain33/system/crypto/init"
 	"github.com/33cn/chain33/types"
 	btcec "github.com/btcsuite/btcd/btcec/v2"
@@ -417,7 +418,7 @@ func initRegistry() {
 
 // applyCfg calls crypto.Init and mirrors its documented effect.
 func applyCfg(enableTypes []string, heights map[string]int64) {
-	crypto.Init(&crypto.Config{EnableTypes: enableTypes, EnableHeight: heights}, nil)
+	crypto.Init(&crypto.Config{EnableTypes: enableTypes, EnableHeight: heights}, ethSub)
 	if len(enableTypes) > 0 {
 		for _, d := range registry {
 			d.Enable = false
@@ -835,6 +836,8 @@ func main() {
 	o := hlib.NewOut(opts.OutDir)
 	defer o.Close()
 	initRegistry()
+	initAddrIDs()
+	crypto.Init(&crypto.Config{}, ethSub) // evm chain id / coins precision of the secp256k1eth driver; enable state untouched
 
 	if opts.Replay != "" {
 		var in struct {
@@ -843,6 +846,12 @@ func main() {
 			T2   *jtx    `json:"t2"`
 			H    int64   `json:"h"`
 			Cfgs []cfgIn `json:"cfgs"`
+			W    string  `json:"w"`
+			Drv  string  `json:"drv"`
+			Key  string  `json:"key"`
+			Ty   int32   `json:"ty"`
+			Ty2  int32   `json:"ty2"`
+			Msg  string  `json:"msg"`
 		}
 		if err := hlib.ReplayInput(opts.Replay, &in); err != nil {
 			panic(err)
@@ -859,6 +868,22 @@ func main() {
 				applyCfg(c.EnableTypes, c.Heights)
 			}
 			emitVerify(o, "replay", in.Cfgs, in.H, fromJ(in.T), fromJ(in.T2))
+		case "wire", "resign", "from", "eth":
+			for _, c := range in.Cfgs {
+				applyCfg(c.EnableTypes, c.Heights)
+			}
+			switch in.Op {
+			case "wire":
+				emitWire(o, "replay", in.Cfgs, in.H, fromJ(in.T), wRaw(unhex(in.W)))
+			case "resign":
+				emitResign(o, "replay", in.Cfgs, in.H, in.Drv, unhex(in.Key), in.Ty, unhex(in.W))
+			case "from":
+				emitFrom(o, "replay", in.Cfgs, in.H, fromJ(in.T), in.Ty2)
+			case "eth":
+				emitEth(o, "replay", in.Cfgs, in.H, fromJ(in.T), fromJ(in.T2))
+			}
+		case "action":
+			emitAction(o, "replay", unhex(in.Msg))
 		default:
 			panic("unknown op " + in.Op)
 		}
@@ -867,8 +892,10 @@ func main() {
 
 	r := hlib.NewRng(opts.Seed)
 	nEnc, nPairBase, perDriver := 220, 25, 2
+	nWire, nFrom, nAction, nEth := 12, 2, 250, 5
 	if opts.Thorough() {
 		nEnc, nPairBase, perDriver = 6000, 600, 40
+		nWire, nFrom, nAction, nEth = 300, 24, 6000, 100
 	}
 
 	o.Emit("schema", true, hlib.App("CSchema", schema(types.Transaction{}), schema(types.Signature{})), map[string]string{"op": "schema"},
@@ -911,10 +938,18 @@ func main() {
 	// 3. sign / verify under three registry configurations
 	var cfgs []cfgIn
 	verifyStream(o, r, cfgs, perDriver, true) // default registration: everything but "none" enabled from height 0
+	// 4. extension streams under the default registration
+	wireStream(o, r, cfgs, nWire)
+	fromStream(o, r, cfgs, nFrom)
+	actionStream(o, r, nAction)
+	ethStream(o, r, cfgs, nEth)
 	c1 := cfgIn{Heights: map[string]int64{"secp256k1": 0, "ed25519": 10, "sm2": 7, "secp256r1": 100, "secp256k1eth": 3, "none": 2}}
 	applyCfg(c1.EnableTypes, c1.Heights)
 	cfgs = append(cfgs, c1)
 	verifyStream(o, r, cfgs, (perDriver+1)/2, opts.Thorough())
+	wireStream(o, r, cfgs, (nWire+1)/2)
+	fromStream(o, r, cfgs, (nFrom+1)/2)
+	ethStream(o, r, cfgs, (nEth+2)/3)
 	c2 := cfgIn{EnableTypes: []string{"secp256k1", "sm2", "secp256k1eth", "none"}, Heights: map[string]int64{"secp256k1": 5, "sm2": -1, "none": 4, "ed25519": 2}}
 	applyCfg(c2.EnableTypes, c2.Heights)
 	cfgs = append(cfgs, c2)
